@@ -10,7 +10,7 @@ COQ = os.path.join(os.path.dirname(os.path.abspath(__file__)), "..", "coq")
 
 def stmt(path, name):
     s = open(os.path.join(COQ, "Proofs", path)).read()
-    m = re.search(r"(?:Theorem|Lemma|Corollary)\s+%s\s*:(.*?)\.\s*\n\s*Proof\." % re.escape(name), s, re.S)
+    m = re.search(r"(?:Theorem|Lemma|Corollary|Example)\s+%s\s*:(.*?)\.\s*\n\s*Proof\." % re.escape(name), s, re.S)
     if not m:
         raise SystemExit("pin_props: statement of %s not found in %s" % (name, path))
     return m.group(1).strip()
@@ -23,8 +23,9 @@ STD = ["From Coq Require Import Ascii String.", "From Coq Require Import List NA
 TABLE = {
  "C01": dict(
    intro="C01 -- parsing is total.\n   Termination: the model's OutOfFuel value (a loop of the Rust source that does not finish, or entity\n   recursion deeper than the level fuel) is unreachable on valid UTF-8 input: every loop iteration consumes\n   input and the loop detector bounds the entity nesting.  (On byte strings that are not valid UTF-8 the\n   model can loop: termination_needs_valid_utf8; a Rust &str is always valid UTF-8.)\n   No panic: the tokenizer reaches none of its panic sites (slicing, indexing, advance, unwrap) on valid\n   UTF-8, with any callback that does not panic itself; the real callback preserves the builder invariant\n   Core and reaches no panic site either; the final root-children check is covered through the arena\n   invariant of C02.  Together: parse_no_panic and parse_terminates, i.e. parse returns Ok or Err for every\n   valid UTF-8 input and every limit that fits the u32 field.  (The one site that could not be excluded,\n   ShortRange::from in resolve_namespaces, was a genuine defect: D17, repaired.)\n   The panic sites of the SOURCE that the model does not represent (it uses total functions there: slicing in\n   as_bytes / starts_with / process_cdata, from_utf8().unwrap() in skip_string, the debug assertions of push_ns and\n   of the range conversion, the swallowed advance in try_consume_byte; found by the model audit) are given strict\n   variants that DO panic there (Proofs/StrictModel.v) and proved unreachable: the builder sites over a whole run\n   (site_builder_run: the strict builder never panics), the others pointwise / on every constructible stream; the\n   table site -> theorem is in the header of Proofs/Strict.v.",
-   imports=["From RX.Proofs Require Import TermStream TermUtf8 TermParse TermFinal NoPanicUtf8 NoPanicStream NoPanicTokenizer NoPanicBuilder NoPanicBuilderCtx NoPanicText NoPanicParse NoPanicFinal StrictModel StrictTok StrictStream StrictBuilder StrictApi Strict."],
+   imports=["From RX.Proofs Require Import TermStream TermUtf8 TermParse TermFinal NoPanicUtf8 NoPanicStream NoPanicTokenizer NoPanicBuilder NoPanicBuilderCtx NoPanicText NoPanicParse NoPanicFinal StrictModel StrictTok StrictStream StrictBuilder StrictApi Strict StrictRunModel StrictRun."],
    groups=[("NoPanicFinal.v", ["parse_no_panic"]), ("TermFinal.v", ["parse_terminates"]),
+           ("StrictRun.v", ["strict_refines", "parse_strict_no_panic"]),
            ("Strict.v", ["site_builder_run", "site_cdata_unreachable", "site_ns_range_unreachable", "site_try_consume_byte_unreachable",
                          "site_skip_string_unreachable", "site_advance_until2_unreachable", "strict_callback_refines"]),
            ("TermParse.v", ["tokenizer_terminates", "token_terminates", "token_preserves_depth0", "parse_document_terminates"]),
@@ -49,7 +50,7 @@ TABLE = {
            ("RejectProofs.v", ["find_entity_first", "ok_refs_defined_first"], "Local Notation token := Tokenizer.token.")]),
  "C08": dict(
    intro="C08 -- ill-formed documents are rejected.  (1) the three character classes are the Fifth Edition\n   productions for every scalar value (tables regenerated from the source on every run);\n   (2) local rejection theorems, 'accepted implies constraint': comment bodies, ']]>' in text, misplaced\n   declaration, '<' in attribute values, every consumed character is a Char, end tags match the open\n   element and cannot close an element opened outside the current entity, reserved prefixes and URIs,\n   entity references are declared (first declaration wins), and the document-level token shape: only\n   comments / PIs (and entity declarations) before the root, at most one root element, only\n   comments / PIs after it.  (3) Soundness against the grammar on the byte fragment that Spec/Cst.v covers\n   (in_fragment, Proofs/CstSound.v: printable ASCII / TAB / LF, no '&', no ':', no '<!D' '<![' '<?xml' 'xmlns';\n   attrs_raw: no attribute value was normalised): every ACCEPTED input is the rendering of a well-formed abstract\n   document (parse_sound_fragment) -- the parser accepts nothing outside the grammar there -- and its tree is that\n   document's meaning (parse_sound_and_complete).  (4) Truncation: for EVERY accepted document (DOCTYPE and entity expansion included) and\n   every cut (on a character boundary) before the end of its root element, the prefix is rejected\n   (truncation_rejected; root_element_end d and firstn_N are defined in Proofs/TruncMain.v).  (5) Soundness over\n   Unicode (in_fragment_u, Proofs/CstSoundU.v: valid UTF-8, no CR, '&', ':', '<!D', '<![', '<?xml', 'xmlns', no leading\n   BOM): every accepted input is the rendering of a well-formed document of Spec/CstU.v (parse_sound_fragment_u).\n   (6) Soundness with references and CDATA (in_fragment_t, Proofs/CstSoundT.v: printable ASCII / TAB / LF, '&' and\n   '<![' allowed, numeric references denote scalar values -- the documented U+FFFD leniency excluded): every accepted input\n   is the rendering of a well-formed document of Spec/CstText.v, with NO condition on the result (parse_sound_fragment_t).\n   (7) Namespace constraints at document level (Spec/CstNs.v): a syntactically well-formed document that violates one of\n   N1-N7 (undeclared prefix, duplicate declaration, duplicate attribute by expanded name, misuse of xml / xmlns prefixes\n   and URIs) is rejected with one of the namespace error variants (ns_violation_rejected).  (8) Soundness WITH NAMESPACES\n   (in_fragment_n, Proofs/CstSoundN.v: valid UTF-8, qualified names and xmlns declarations allowed, references and CDATA\n   allowed; no CR, DOCTYPE, XML declaration, BOM; numeric references scalar; no leading-colon names and no colon in PI\n   targets -- two leniencies, each with its Example): every accepted input is the rendering of a well-formed document of\n   Spec/CstFull.v stage S2, hence satisfies N1-N7 on normalised URIs; the resource bounds of the completeness theorem\n   follow from acceptance (parse_sound_fragment_n_res), so the parsed tree IS the document's meaning\n   (parse_sound_and_complete_n).  (9) Soundness WITH THE PROLOG AND ENTITIES (in_fragment_p, Proofs/CstSoundP.v: BOM, XML\n   declaration, DOCTYPE with every kind of declaration, character-data general entities declared AND used; conditions P1-P8\n   on the bytes, each leniency with its Example): every accepted input is the rendering of a well-formed document of\n   Spec/CstFullS5.v (parse_sound_fragment_p) -- this covers misplaced / repeated XML declarations, undefined references,\n   recursion, '<' reaching an attribute value through an entity, and the DTD syntax.",
-   imports=["From RX.Spec Require Chars.", "From RX.Spec Require Cst.", "From RX.Proofs Require Import CharTablesProofs RejectProofs WfParseTok WfParseChars WfParse CstSound CstSoundDoc CstSoundCor TruncMain TruncDtdMain CstSoundU CstSoundUDoc CstSoundUCor CstSoundT CstSoundTDoc CstSoundTCor NsRejDefs NsRejBuild NsRejMain CstNsView CstFullMain CstSoundN CstSoundNDoc CstSoundNCor.", "From RX.Spec Require CstU CstText CstNs CstFull CstFullS5.", "From RX.Proofs Require CstSoundP CstSoundPRDoc CstSoundPRCor."],
+   imports=["From RX.Spec Require Chars.", "From RX.Spec Require Cst.", "From RX.Proofs Require Import CharTablesProofs RejectProofs WfParseTok WfParseChars WfParse CstSound CstSoundDoc CstSoundCor TruncMain TruncDtdMain CstSoundU CstSoundUDoc CstSoundUCor CstSoundT CstSoundTDoc CstSoundTCor NsRejDefs NsRejBuild NsRejMain CstNsView CstFullMain CstSoundN CstSoundNDoc CstSoundNCor.", "From RX.Spec Require CstU CstText CstNs CstFull CstFullS5.", "From RX.Proofs Require CstSoundP CstSoundPRDoc CstSoundPRCor.", "From RX.Spec Require CstFullS4 CstFullS6.", "From RX.Proofs Require CstSound6P CstSound6 CstSound6U CstSound6uCor CstFullS6Main CstFullRejSem CstFullRejTrace CstFullRejDoc CstFullRejMain CstFullNsRejMain."],
    groups=[("CharTablesProofs.v", ["char_tables_conform", "byte_tables_conform", "byte_space_conform", "byte_char_agree"]),
            ("RejectProofs.v", ["ok_comment_body", "ok_text_no_cdata_end", "ok_pi_not_declaration", "ok_no_lt_in_attr", "skip_chars_only_chars",
                                "skip_chars_only_chars_text", "consume_chars_only_chars", "ok_tags_balanced", "ok_reserved_names",
@@ -64,11 +65,17 @@ TABLE = {
            ("CstSoundNDoc.v", ["parse_sound_fragment_n", "parse_sound_fragment_n_res"], "Import CstFull."), ("CstSoundNCor.v", ["parse_sound_and_complete_n"], "Import CstFull."),
            ("CstSoundPRDoc.v", ["parse_sound_fragment_p", "parse_sound_fragment_p_res"], "Import RX.Spec.CstFull. Import RX.Spec.CstFullS5. Import RX.Proofs.CstSoundP. Import RX.Proofs.CstSoundPRDoc."),
            ("CstSoundPRCor.v", ["parse_sound_and_complete_p"], "Import RX.Spec.CstFull. Import RX.Spec.CstFullS5. Import RX.Proofs.CstNsView. Import RX.Proofs.CstSoundP. Import RX.Proofs.CstSoundPRCor."),
-           ("NsRejMain.v", ["ns_violation_rejected"], "Import CstNs.")]),
+           ("CstSound6P.v", ["parse_sound_fragment_6_on_p", "parse_sound_and_complete_6_on_p"], "Import RX.Spec.CstFull. Import RX.Spec.CstFullS5. Import RX.Spec.CstFullS6. Import RX.Proofs.CstNsView. Import RX.Proofs.CstSoundP. Import RX.Proofs.CstSound6P."),
+           ("CstSound6uCor.v", ["parse_sound_fragment_6u", "parse_sound_and_complete_6u"], "Import RX.Spec.CstFull. Import RX.Spec.CstFullS5. Import RX.Spec.CstFullS6. Import RX.Proofs.CstNsView. Import RX.Proofs.CstSoundP. Import RX.Proofs.CstSound6. Import RX.Proofs.CstSound6U. Import RX.Proofs.CstSound6uCor."),
+           ("NsRejMain.v", ["ns_violation_rejected"], "Import CstNs."),
+           ("CstFullNsRejMain.v", ["ns_violation_rejected_full_s6"], "Import RX.Spec.CstFull. Import RX.Spec.CstFullS4. Import RX.Spec.CstFullS6. Import RX.Proofs.CstNsView. Import RX.Proofs.CstFullS6Main. Import RX.Proofs.NsRejDefs. Import RX.Proofs.NsRejBuild. Import RX.Proofs.CstFullRejSem. Import RX.Proofs.CstFullRejTrace. Import RX.Proofs.CstFullRejDoc. Import RX.Proofs.CstFullRejMain. Import RX.Proofs.CstFullNsRejMain.")]),
  "C03": dict(
    intro="C03 -- elements, comments and PIs mirror the document's logical structure.  Lexer post-conditions\n   (with a token recorder as callback): a comment token's text is exactly the source between '<!--' and\n   '-->'; a PI's target and value are the source strings (value without leading whitespace, None when\n   empty); CDATA / text tokens are their source slices; the DOCTYPE and the prolog / epilog deliver only\n   comments, PIs (and entity declarations); a start tag delivers ElementStart, attributes, one ElementEnd.\n   The XML declaration has no callback at all.  Document-level token shape: Proofs/RejectProofs.v.\n   Completeness on the fragment of Spec/Cst.v (ASCII names and content, no DOCTYPE, references, namespaces, CR): every\n   rendering of a well-formed abstract document -- with any layout choices: whitespace in tags, quote style,\n   empty-element syntax, prolog / epilog comments and PIs -- parses to exactly its meaning (view = sem:\n   kinds, names, attributes in order with values, comment text, PI target / value, text, children counts), so two\n   renderings with the same meaning give the same tree (layout_insensitive).  view is defined in Proofs/CstMain.v.\n   The same over Unicode (Spec/CstU.v: names, values, text, comments, PIs are lists of scalar values in the 5th-edition\n   Name / Char classes, rendered in UTF-8): parse_render_sem_u, layout_insensitive_u, render_valid_utf8.\n   The largest fragment (Spec/CstFull.v stage S3 = Unicode + namespaces + pieces + character-data entities, pinned under\n   C06) extended by the whole PROLOG (Spec/CstFullS5.v): byte order mark, XML declaration, DOCTYPE with external id and an\n   internal subset holding every kind of declaration (general / parameter / external / unparsed entities, ELEMENT /\n   ATTLIST / NOTATION, comments and PIs -- which become nodes under the Root), CR in markup whitespace:\n   parse_render_sem_full_s5 and prolog_insensitive_full_s5 (same meaning => same tree, whatever the prolog).\n   THE CAPSTONE (Spec/CstFullS6.v): S4's entities (character data or markup with qualified names, resolved at the place\n   of reference) inside S5's prolog, CR in markup whitespace everywhere -- ONE statement for the whole supported subset:\n   parse_render_sem_full_s6; same meaning => same tree whatever the distribution over entities, the prolog and the layout\n   (hoist_prolog_insensitive_full_s6); S4 and S5 embed with the same rendering and meaning (s4_in_s6, s5_in_s6), hence\n   so do S1..S3.  What S6 still excludes is listed in the spec files: CR inside comment / PI bodies, '>' inside a literal of\n   a skipped markup declaration, '%' and character references to TAB / LF / CR / '&' / '<' inside entity literals, colons\n   in DOCTYPE / entity names, the CR LF proviso and D15.",
-   imports=["From RX.Spec Require Cst.", "From RX.Spec Require CstU CstNs CstFull CstFullS5.", "From RX.Proofs Require Import LexerProofs RejectProofs CstMain CstUMain.", "From RX.Proofs Require CstNsView CstFullMain CstFullS5 CstFullS6Main CstFullS6Embed5.", "From RX.Spec Require CstFullS4 CstFullS6."],
+   imports=["From RX.Spec Require Cst.", "From RX.Spec Require CstU CstNs CstFull CstFullS5.", "From RX.Proofs Require Import LexerProofs RejectProofs CstMain CstUMain.", "From RX.Proofs Require CstNsView CstFullMain CstFullS5 CstFullS6Main CstFullS6Embed5.", "From RX.Spec Require CstFullS4 CstFullS6.", "From RX.Proofs Require ApiViewAcc ApiView ApiViewProofs ApiViewCapstone.", "From RX.Spec Require CstFullS7.", "From RX.Proofs Require CstFullS7Main."],
    groups=[("CstMain.v", ["parse_render_sem", "layout_insensitive"]),
+           ("ApiViewCapstone.v", ["parse_render_sem_full_s6_api", "hoist_prolog_insensitive_full_s6_api"], "Import RX.Spec.CstFull. Import RX.Spec.CstFullS6. Import RX.Proofs.ApiView. Import RX.Proofs.ApiViewProofs. Import RX.Proofs.ApiViewCapstone."),
+           ("ApiViewProofs.v", ["api_view_agrees", "api_view_defined"], "Import RX.Proofs.ApiViewAcc. Import RX.Proofs.ApiView. Import RX.Proofs.ApiViewProofs."),
+           ("CstFullS7Main.v", ["parse_render_sem_full_s7", "parse_render_sem_full_s7_api", "s6_in_s7"], "Import RX.Spec.CstFull. Import RX.Spec.CstFullS6. Import RX.Spec.CstFullS7. Import RX.Proofs.CstNsView. Import RX.Proofs.ApiView. Import RX.Proofs.CstFullS7Main."),
            ("CstUMain.v", ["render_valid_utf8", "parse_render_sem_u", "layout_insensitive_u"]),
            ("CstFullS6Main.v", ["parse_render_sem_full_s6", "hoist_prolog_insensitive_full_s6", "s4_in_s6"], "Import RX.Spec.CstFull. Import RX.Spec.CstFullS4. Import RX.Spec.CstFullS6. Import RX.Proofs.CstNsView. Import RX.Proofs.CstFullS6Main."),
            ("CstFullS6Embed5.v", ["s5_in_s6"], "Import RX.Spec.CstFull. Import RX.Spec.CstFullS5. Import RX.Spec.CstFullS6. Import RX.Proofs.CstFullS6Main. Import RX.Proofs.CstFullS6Embed5."),
@@ -92,7 +99,7 @@ TABLE = {
                                  "resolve_attributes_unique_eqb", "resolve_attributes_namespace"])]),
  "C06": dict(
    intro="C06 -- names and in-scope namespaces: the element's namespace range denotes\n   Spec.scope_of (own declarations, then inherited bindings not re-declared); names resolve to the\n   first binding of their prefix; duplicate declarations are detected; the 2^16 limit.\n   (scopes_refine carries the hypothesis that the parent's scope has unique prefixes, which\n   scope_prefixes_unique re-establishes.)  Whole documents on the fragment of Spec/CstNs.v (the Cst fragment with\n   qualified names and xmlns / xmlns:p declarations interleaved with attributes; empty URIs, xml:lang, p:xmlns\n   attributes included): every rendering of a namespace-well-formed abstract document parses to exactly its\n   meaning, where the tag's namespace, each attribute's namespace and each element's in-scope list\n   (Node::namespaces()) are computed ONLY with Spec/Scope.v from the WRITTEN declarations and the parent's scope\n   (parse_render_sem_ns: view = Some (sem c)).  Two resource hypotheses, stated with spec functions: at most 65535\n   distinct declared bindings (the documented limit) and a namespace table within u32::MAX entries.\n   The same over Unicode (Spec/CstFull.v, stage S1: prefixes, local names, URIs, values and content are scalar values of\n   the 5th-edition classes rendered in UTF-8): parse_render_sem_full_s1; stage S2 adds CstText's pieces everywhere:\n   attribute values, text runs and the VALUES OF NAMESPACE DECLARATIONS are lists of literals (incl. CR), character and\n   predefined references (CDATA in text) -- a URI supplied through references (xmlns:p='&#117;rn:x') declares the\n   normalised URI, and the reserved-name rules are decided on it: parse_render_sem_full_s2, spelling_insensitive_full_s2;\n   stage S3 adds an internal DTD subset with character-data entities (Unicode names and values, nested, first declaration\n   wins) referenced from content, attribute values and NAMESPACE DECLARATION VALUES (a URI supplied through an entity):\n   parse_render_sem_full_s3, hoist_insensitive_full_s3.  S1 c S2 c S3; this is the single statement that covers\n   C03..C07 together on the largest fragment.  Rejection half (NsRejMain.v, on Spec/CstNs.v): for syntactically\n   well-formed documents parse succeeds IFF the namespace conditions N1-N7 hold (ns_decide), and the first violated\n   rule (first_violation, NsRejDefs.v) determines the error variant and payload (ns_violation_variant).",
-   imports=["From RX.Spec Require Scope.", "From RX.Spec Require Cst CstNs CstU CstFull.", "From RX.Proofs Require Import ScopeProofs ScopeParse CstNsView CstNsMain CstFullMain CstFullS1 CstFullS2 CstFullS3 NsRejDefs NsRejBuild NsRejMain.", "From RX.Spec Require CstFullS4.", "From RX.Proofs Require CstFullS4Main."],
+   imports=["From RX.Spec Require Scope.", "From RX.Spec Require Cst CstNs CstU CstFull.", "From RX.Proofs Require Import ScopeProofs ScopeParse CstNsView CstNsMain CstFullMain CstFullS1 CstFullS2 CstFullS3 NsRejDefs NsRejBuild NsRejMain.", "From RX.Spec Require CstFullS4 CstFullS6.", "From RX.Proofs Require CstFullS4Main CstFullS6Main CstFullRejSem CstFullRejTrace CstFullRejDoc CstFullRejMain CstFullNsRejMain."],
    groups=[("ScopeParse.v", ["parse_scopes_ok", "parse_names_ok"]),
            ("ScopeProofs.v", ["scopes_refine", "scope_prefixes_unique", "names_resolve", "unknown_prefix_rejected", "unknown_prefix_never_ok",
                               "duplicate_declaration_rejected", "push_ns_appends", "push_ns_limit", "ns_values_limit_is"]),
@@ -101,32 +108,36 @@ TABLE = {
            ("CstFullS3.v", ["parse_render_sem_full_s3", "hoist_insensitive_full_s3"], "Import CstFull."),
            ("CstFullS4Main.v", ["parse_render_sem_full_s4"], "Import RX.Spec.CstFull. Import RX.Spec.CstFullS4. Import RX.Proofs.CstFullS4Main."),
            ("CstNsMain.v", ["parse_render_sem_ns", "layout_insensitive_ns"], "Import CstNs."),
-           ("NsRejMain.v", ["ns_decide", "ns_violation_variant"], "Import CstNs.")]),
+           ("NsRejMain.v", ["ns_decide", "ns_violation_variant"], "Import CstNs."),
+           ("CstFullNsRejMain.v", ["ns_decide_full_s6_partial", "ns_violation_variant_full_s6", "decide_full_s6"], "Import RX.Spec.CstFull. Import RX.Spec.CstFullS4. Import RX.Spec.CstFullS6. Import RX.Proofs.CstNsView. Import RX.Proofs.CstFullS6Main. Import RX.Proofs.NsRejDefs. Import RX.Proofs.NsRejBuild. Import RX.Proofs.CstFullRejSem. Import RX.Proofs.CstFullRejTrace. Import RX.Proofs.CstFullRejDoc. Import RX.Proofs.CstFullRejMain. Import RX.Proofs.CstFullNsRejMain.")]),
  "C09": dict(
    intro="C09 -- entity expansion is bounded yet not over-restricted.  (1) the loop detector is sound and complete\n   w.r.t. the trace specification, with the documented numbers (10, 255) against constants regenerated from the\n   source; (2) the node budget over a whole parse: a successfully parsed document has at most\n   1 + len + 256 * len * amp nodes (hence <= 256 * (len + 1) * (amp + 1)), for every input and all options;\n   without a DOCTYPE at most len + 1 nodes; (3) the byte budget: the text of all Text nodes plus all attribute\n   values (text_len + value_len, BudgetBytesBuild.v) is at most len + 256 * len * amp bytes.  (5) Whole documents on the\n   fragment of Spec/CstEnt.v: for a document whose only possible defect is the expansion (wf_syntax, and ginline = Some:\n   no undeclared name, no markup reaching an attribute), the detector limits DECIDE the outcome -- within 10 / 255 it parses\n   to its inlined meaning, otherwise Err EntityReferenceLoop (limits_decide_ent) -- hence a reference cycle reachable\n   from the body (cyclic_doc, defined on the declaration graph with first declarations), a reference path of 11 or more\n   names, or more than 255 expansions below one top-level reference are each rejected with EntityReferenceLoop.",
-   imports=["From RX.Spec Require Import Detector.", "From RX.Proofs Require Import DetectorProofs OptionsParam OptionsBuild OptionsMain OptionsDtd BudgetStream BudgetTok BudgetBuild BudgetAcct BudgetMain BudgetNoEnt BudgetBytesBuild BudgetBytesTok BudgetBytesAcct BudgetBytesMain CycleStream CycleContent CycleAttr CycleEntered.", "From RX.Spec Require Cst CstText CstEnt.", "From RX.Proofs Require Import CstMain CstTextMain CstEntMain CstEntRejSem CstEntRejTrace CstEntRejMain."],
+   imports=["From RX.Spec Require Import Detector.", "From RX.Proofs Require Import DetectorProofs OptionsParam OptionsBuild OptionsMain OptionsDtd BudgetStream BudgetTok BudgetBuild BudgetAcct BudgetMain BudgetNoEnt BudgetBytesBuild BudgetBytesTok BudgetBytesAcct BudgetBytesMain CycleStream CycleContent CycleAttr CycleEntered.", "From RX.Spec Require Cst CstText CstEnt.", "From RX.Proofs Require Import CstMain CstTextMain CstEntMain CstEntRejSem CstEntRejTrace CstEntRejMain.", "From RX.Spec Require CstFull CstFullS4 CstFullS6.", "From RX.Proofs Require CstNsView CstFullS6Main CstFullRejSem CstFullRejTrace CstFullRejDoc CstFullRejMain."],
    groups=[("BudgetMain.v", ["expansion_budget_nodes", "expansion_budget_tight"]), ("BudgetNoEnt.v", ["budget_no_entities"]),
            ("BudgetBytesMain.v", ["expansion_budget_bytes", "expansion_budget_bytes_tight"]),
            ("CstEntRejMain.v", ["limits_decide_ent", "cycle_rejected_ent", "depth_exceeded_rejected_ent", "budget_exceeded_rejected_ent"], "Module E := CstEnt. Module T := CstText."),
+           ("CstFullRejMain.v", ["limits_decide_full_s6", "cycle_rejected_full_s6", "depth_exceeded_rejected_full_s6", "budget_exceeded_rejected_full_s6"], "Import RX.Spec.CstFull. Import RX.Spec.CstFullS4. Import RX.Spec.CstFullS6. Import RX.Proofs.CstNsView. Import RX.Proofs.CstFullS6Main. Import RX.Proofs.CstFullRejSem. Import RX.Proofs.CstFullRejTrace. Import RX.Proofs.CstFullRejDoc. Import RX.Proofs.CstFullRejMain."),
            ("DetectorProofs.v", ["enter_agrees_model", "detector_sound", "detector_complete", "limits_bound_depth", "limits_bound_nested",
                                  "documented_limits", "chain_accepted_iff", "fan_accepted_iff", "flat_accepted"])]),
  "C10": dict(
    intro="C10 -- every read operation on a parsed document is total: for every successfully parsed document\n   (valid UTF-8 input, limit fitting the u32 field), every node id below the node count and every argument,\n   each accessor, axis, element variant, iterator constructor, name lookup, text / tail, root_element,\n   get_node (any id) and text_pos_at (any offset) of the model's API returns Ok -- it reaches none of the\n   panic sites of the source (unwrap, expect, indexing, slicing) and its loops do not run out of fuel.",
-   imports=["From RX.Spec Require Import Tree.", "From RX.Model Require Import Debug.", "From RX.Proofs Require Import ApiTotal PositionProofs DebugTotal StrictModel StrictApi Strict."],
+   imports=["From RX.Spec Require Import Tree.", "From RX.Model Require Import Debug.", "From RX.Proofs Require Import ApiTotal PositionProofs DebugTotal StrictModel StrictApi Strict.", "From RX Require GeneratedDisplay.", "From RX.Model Require ErrDisplay.", "From RX.Proofs Require ErrDisplayProofs."],
    groups=[("ApiTotal.v", ["api_total", "api_total_doc"]), ("PositionProofs.v", ["text_pos_total_valid"]),
            ("DebugTotal.v", ["debug_total", "debug_stack_bounded"]),
-           ("Strict.v", ["site_debug_depth_unreachable"]), ("StrictApi.v", ["site_descendants_unreachable"])]),
+           ("Strict.v", ["site_debug_depth_unreachable"]), ("StrictApi.v", ["site_descendants_unreachable"]),
+           ("ErrDisplayProofs.v", ["display_table_complete", "display_nonempty"], "Import RX.GeneratedDisplay. Import RX.Model.ErrDisplay. Import RX.Proofs.ErrShiftBase. Import RX.Proofs.ErrDisplayProofs. Local Open Scope list_scope.")]),
  "C11": dict(
-   intro="C11 -- navigation and iterators agree with the tree: every parsed document is an arena (Arena' d t:\n   the pre-order encoding of a well-formed document tree, NavParse.v), and on every arena each link accessor, axis, element variant, text/tail, root_element\n   and iterator of the model's API is the corresponding function of t, and the double-ended iterators\n   implement the deque specification for every sequence of operations.",
-   imports=["From RX.Spec Require Import Tree Deque.", "From RX.Proofs Require Import NavEnc NavLinks NavIter NavAxes NavElem NavParse."],
-   groups=[("NavLinks.v", ["table_ids", "nav_parent", "nav_has_children", "nav_first_child", "nav_last_child", "nav_prev_sibling", "nav_next_sibling", "nav_descendants"]),
-           ("NavIter.v", ["nav_children", "children_deque", "slice_deque"]),
-           ("NavAxes.v", ["nav_ancestors", "nav_next_siblings", "nav_prev_siblings", "nav_first_children", "nav_last_children"]),
+   intro="C11 -- navigation and iterators agree with the tree: every parsed document is an arena (Arena' d t:\n   the pre-order encoding of a well-formed document tree, NavParse.v), and on every such arena (Arena', the form parse yields: up to u32::MAX nodes) each link accessor, axis, element variant, text/tail, root_element\n   and iterator of the model's API is the corresponding function of t, and the double-ended iterators\n   implement the deque specification for every sequence of operations.",
+   imports=["From RX.Spec Require Import Tree Deque.", "From RX.Proofs Require Import NavEnc NavLinks NavIter NavAxes NavElem NavParse.", "From RX.Proofs Require ApiViewAcc ApiView ApiViewProofs."],
+   groups=[("ApiViewProofs.v", ["api_view_agrees", "api_view_defined"], "Import RX.Proofs.ApiViewAcc. Import RX.Proofs.ApiView. Import RX.Proofs.ApiViewProofs."),
+           ("NavLinks.v", ["table_ids", "nav_parent'", "nav_has_children'", "nav_first_child'", "nav_last_child'", "nav_prev_sibling'", "nav_next_sibling'", "nav_descendants'"]),
+           ("NavIter.v", ["nav_children'", "children_deque", "slice_deque"]),
+           ("NavAxes.v", ["nav_ancestors'", "nav_next_siblings'", "nav_prev_siblings'", "nav_first_children'", "nav_last_children'"]),
            ("NavParse.v", ["parse_default_arena", "parse_arena'", "parse_ids_dense'", "parse_descendants_preorder'", "parse_children_rev'",
                            "parse_root_element'", "parse_nav_total'"]),
-           ("NavElem.v", ["nav_has_siblings", "nav_element_variants_exclude_self", "nav_parent_element", "nav_prev_sibling_element",
-                          "nav_next_sibling_element", "nav_first_element_child", "nav_last_element_child", "nav_root_element",
-                          "nav_root_element_none", "nav_text_storage", "nav_tail_storage"])]),
+           ("NavElem.v", ["nav_has_siblings'", "nav_element_variants_exclude_self'", "nav_parent_element'", "nav_prev_sibling_element'",
+                          "nav_next_sibling_element'", "nav_first_element_child'", "nav_last_element_child'", "nav_root_element'",
+                          "nav_root_element_none'", "nav_text_storage'", "nav_tail_storage'"])]),
  "C12": dict(
    intro="C12 -- name-based lookups are the first match of the enumerated attributes / namespaces.",
    imports=["From RX.Proofs Require Import LookupProofs."],
@@ -135,7 +146,7 @@ TABLE = {
                                "lookup_prefix_xml", "lookup_prefix_first", "attr_eqb_spec"])]),
  "C13": dict(
    intro="C13 -- source ranges are valid and designate the construct they belong to.  For every parsed document\n   (entity-expanded nodes included): every node and attribute range is a valid slice of the input (start <=\n   end <= len, char boundaries), the root range is the whole input, every attribute lies strictly inside its\n   element's range with its qname sub-range inside it; for documents without a DOCTYPE a child's range lies\n   within its parent's and a node starts after its previous sibling ends.  Shape clauses, from the lexer\n   post-conditions: the range of a comment token is exactly '<!--' text '-->', of a PI token '<?' target ...\n   '?>', a start tag runs from '<' to its '>' and the name follows the '<', an end tag from '</' to '>';\n   text / CDATA ranges are the token's source.  Attribute sub-ranges (below the documented saturation limits):\n   the qname sub-range ends where the local name ends, the value sub-range is delimited by the same quote on\n   both sides, ends one byte before the attribute's end, equals a borrowed value's slice, and only whitespace and\n   one '=' separate it from the qname.  Shift: prepending whitespace to an input that starts with neither a BOM nor\n   an XML declaration yields the same document with every non-root range moved by exactly that length.\n   Whole documents on the fragment of Spec/Cst.v: the range of every node is exactly the span of its construct in\n   the rendering (spans c, CstRangeDefs.v: an element from its '<' to the '>' of its end or empty-element tag), the\n   root range is the whole input, attribute range / qname / value sub-ranges are exactly the written name-to-quote,\n   name and between-the-quotes spans (attr_spans c); hence the slice shapes C13 names (EXTRA below).",
-   imports=["From RX.Proofs Require Import LexerProofs NoPanicTokenizer RangeTokenizer RangeArena RangeInv RangeBuilder RangeParse RangeAttrLocal RangeAttrTok RangeAttrParse RangeShiftBase RangeShiftStream RangeShiftTokenizer RangeShiftBuilder RangeShiftParse RangeShiftFinal CstRangeDefs CstRangeMain CstRangeTDefs CstRangeTMain CstEntDoc CstRangeEDefs CstRangeEMain CstRangeEValid.", "From RX.Spec Require Cst CstText CstEnt CstFull CstFullS5.", "From RX.Proofs Require CstRangeFDefs CstRangeFS2 CstRangeGDefs CstRangeGS3 CstRangeG5Defs CstRangeG5."],
+   imports=["From RX.Proofs Require Import LexerProofs NoPanicTokenizer RangeTokenizer RangeArena RangeInv RangeBuilder RangeParse RangeAttrLocal RangeAttrTok RangeAttrParse RangeShiftBase RangeShiftStream RangeShiftTokenizer RangeShiftBuilder RangeShiftParse RangeShiftFinal CstRangeDefs CstRangeMain CstRangeTDefs CstRangeTMain CstEntDoc CstRangeEDefs CstRangeEMain CstRangeEValid.", "From RX.Spec Require Cst CstText CstEnt CstFull CstFullS5.", "From RX.Proofs Require CstRangeFDefs CstRangeFS2 CstRangeGDefs CstRangeGS3 CstRangeG5Defs CstRangeG5.", "From RX.Spec Require CstFullS4 CstFullS6.", "From RX.Proofs Require CstRangeG6Defs CstRangeG6."],
    groups=[("RangeParse.v", ["parse_ranges_valid", "parse_attr_ranges_inside", "parse_ranges_nest", "parse_ranges_siblings"]),
            ("RangeAttrParse.v", ["parse_attr_subranges"]), ("RangeShiftFinal.v", ["parse_shift_whitespace_partial"]),
            ("CstRangeMain.v", ["parse_render_ranges", "parse_render_attr_ranges"]),
@@ -144,20 +155,24 @@ TABLE = {
            ("CstRangeFS2.v", ["parse_render_ranges_f2", "parse_render_attr_ranges_f2"], "Import RX.Spec.CstFull. Import RX.Proofs.CstRangeFDefs. Import RX.Proofs.CstRangeFS2."),
            ("CstRangeGS3.v", ["parse_render_ranges_f3"], "Import RX.Spec.CstFull. Import RX.Proofs.CstRangeFDefs. Import RX.Proofs.CstRangeGDefs. Import RX.Proofs.CstRangeGS3."),
            ("CstRangeG5.v", ["parse_render_ranges_f5", "parse_render_attr_ranges_f5"], "Import RX.Spec.CstFull. Import RX.Spec.CstFullS5. Import RX.Proofs.CstRangeFDefs. Import RX.Proofs.CstRangeFS2. Import RX.Proofs.CstRangeG5Defs. Import RX.Proofs.CstRangeG5."),
+           ("CstRangeG6.v", ["parse_render_ranges_f6", "parse_render_attr_ranges_f6"], "Import RX.Spec.CstFull. Import RX.Spec.CstFullS4. Import RX.Spec.CstFullS6. Import RX.Proofs.CstRangeFDefs. Import RX.Proofs.CstRangeFS2. Import RX.Proofs.CstRangeG6Defs. Import RX.Proofs.CstRangeG6."),
            ("RangeTokenizer.v", ["tokenizer_token_ranges"], "Local Notation token := Tokenizer.token."),
            ("LexerProofs.v", ["parse_comment_post", "parse_pi_post", "parse_cdata_post", "parse_text_post", "parse_element_tokens",
                               "parse_close_element_post"], "Local Notation token := Tokenizer.token.", "forall (text : bytes),")]),
  "C14": dict(
    intro="C14 -- text positions and error reports: text_pos_at is total on valid UTF-8, clamps, counts\n   rows by LF and columns in characters, stays in bounds and moves with inserted line breaks / spaces;\n   every Err returned by parse carries the position of an offset inside the input (or is one of the\n   seven position-less variants, which report 1:1), hence row / column are within the input.  Shift over a whole\n   parse: whitespace put in front of a document (no BOM / declaration) leaves the outcome unchanged -- an Ok result is\n   the same document with shifted offsets, an Err has the same variant and payload and is reported at the same place of\n   the document (offset + k), i.e. k spaces move the column of a row-1 error by k, k line breaks move the row by k.\n   The same for whitespace inserted at any insertion point of the prolog before a DOCTYPE (after the BOM / XML\n   declaration, after each comment or PI of the first Misc run; insertion_point is defined operationally and is\n   decidable by insertion_point_b): parse_err_shift_mid_partial, parse_ok_shift_mid_partial and the spaces / lines\n   corollaries (an error on the insertion point's row moves by k columns; k line breaks move the row by k).  And for\n   insertion points AFTER a DOCTYPE (between the DOCTYPE and the root, after later comments / PIs) when the DOCTYPE\n   records no general entity (parameter / external entities, ELEMENT / ATTLIST / NOTATION, comments and PIs inside the\n   subset are allowed): parse_err_shift_dtd, parse_ok_shift_dtd.",
-   imports=["From RX.Proofs Require Import PositionProofs ErrPosStream ErrPosTokenizer ErrPosParse ErrPayload RangeShiftBuilder ErrShiftBase ErrShiftFinal ErrShiftMidCore ErrShiftMidFinal ErrShiftDtdFinal."],
+   imports=["From RX.Proofs Require Import PositionProofs ErrPosStream ErrPosTokenizer ErrPosParse ErrPayload RangeShiftBuilder ErrShiftBase ErrShiftFinal ErrShiftMidCore ErrShiftMidFinal ErrShiftDtdFinal ErrShiftEntFinal ErrShiftSubCont ErrShiftSubFinal.", "From RX Require GeneratedDisplay.", "From RX.Model Require ErrDisplay.", "From RX.Proofs Require ErrDisplayProofs."],
    groups=[("PositionProofs.v", ["text_pos_total_valid", "text_pos_clamped", "text_pos_on_boundary", "text_pos_bounds", "text_pos_shift_lines_valid",
                                  "text_pos_shift_spaces_valid", "text_pos_shift_lines_gen", "text_pos_shift_spaces_gen"]),
            ("ErrShiftFinal.v", ["parse_err_shift", "parse_ok_shift", "parse_err_shift_spaces", "parse_err_shift_lines"]),
            ("ErrShiftMidFinal.v", ["parse_err_shift_mid_partial", "parse_ok_shift_mid_partial", "parse_err_shift_mid_spaces", "parse_err_shift_mid_lines"]),
            ("ErrShiftDtdFinal.v", ["parse_err_shift_dtd", "parse_ok_shift_dtd", "parse_err_shift_dtd_spaces", "parse_err_shift_dtd_lines"]),
+           ("ErrShiftEntFinal.v", ["parse_err_shift_ent", "parse_ok_shift_ent", "parse_err_shift_ent_spaces", "parse_err_shift_ent_lines"]),
+           ("ErrShiftSubFinal.v", ["parse_err_shift_sub", "parse_ok_shift_sub", "parse_err_shift_sub_spaces", "parse_err_shift_sub_lines", "parse_err_shift_prolog"]),
            ("ErrPosTokenizer.v", ["tokenizer_errors_positioned"], "Local Notation token := Tokenizer.token."),
            ("ErrPosParse.v", ["token_errors_positioned", "parse_errors_positioned", "parse_error_in_bounds"]),
-           ("ErrPayload.v", ["parse_error_payload_from_source"])]),
+           ("ErrPayload.v", ["parse_error_payload_from_source"]),
+           ("ErrDisplayProofs.v", ["display_table_complete", "display_pos", "display_positionless", "read_show_pos", "display_payload"], "Import RX.GeneratedDisplay. Import RX.Model.ErrDisplay. Import RX.Proofs.ErrShiftBase. Import RX.Proofs.ErrDisplayProofs. Local Open Scope list_scope.")]),
  "C15": dict(
    intro="C15 -- nodes_limit is a hard, monotone cap on tree size: a successful parse has at most L nodes;\n   if the parse with a larger limit succeeds with N nodes then every L >= N gives the identical document\n   and every L < N gives Err NodesLimitReached; if it fails, every smaller limit fails too.",
    imports=["From RX.Proofs Require Import OptionsParam OptionsBuild OptionsMain OptionsDtd."],
@@ -170,7 +185,7 @@ TABLE = {
            ("CstFullS5.v", ["dtd_refused_full", "no_dtd_any_option"], "Import RX.Spec.CstFull. Import RX.Spec.CstFullS5. Import RX.Proofs.CstNsView. Import RX.Proofs.CstFullMain. Import RX.Proofs.CstFullS5.")]),
  "C18": dict(
    intro="C18 -- borrowed strings are slices of the input; undecoded content is not copied.  In the model a\n   borrowed string is an offset pair; every such pair in a parsed document is a valid slice of the input\n   (start <= end <= len, both on char boundaries), the only 'static strings are those of the xml\n   namespace, and the fast paths keep text / CDATA / attribute values borrowed.  Whole documents on the fragment of\n   Spec/Cst.v (parse_render_storage): every Text node and every attribute value is stored Borrowed with exactly the\n   span where it is written, and every name (tag, attribute, PI target, PI value, comment text) is the slice of its\n   written occurrence (shapes c / attr_spans c, CstRangeDefs.v).  On the fragment of Spec/CstText.v\n   (parse_render_storage_t; tshapes / tattr_spans in CstRangeTDefs.v): a run that is ONE literal without CR is Borrowed\n   with exactly its span; a run that is ONE CDATA section without CR is Borrowed with the span of its content; every other\n   run is Owned with the decoded text; an attribute value that is empty or one literal without TAB / LF / CR is Borrowed\n   with the span between the quotes, every other is Owned with the normalised value -- undecoded content is never copied.",
-   imports=["From RX.Spec Require Cst.", "From RX.Spec Require CstText CstEnt.", "From RX.Proofs Require Import BorrowLocal BorrowTokenizer BorrowParse TextMerge CstRangeDefs CstRangeMain CstRangeTDefs CstRangeTMain CstEntDoc CstRangeEDefs CstRangeEMain.", "From RX.Spec Require CstFull CstFullS5.", "From RX.Proofs Require CstRangeFDefs CstRangeFS2 CstRangeG5Defs CstRangeG5."],
+   imports=["From RX.Spec Require Cst.", "From RX.Spec Require CstText CstEnt.", "From RX.Proofs Require Import BorrowLocal BorrowTokenizer BorrowParse TextMerge CstRangeDefs CstRangeMain CstRangeTDefs CstRangeTMain CstEntDoc CstRangeEDefs CstRangeEMain.", "From RX.Spec Require CstFull CstFullS5.", "From RX.Proofs Require CstRangeFDefs CstRangeFS2 CstRangeG5Defs CstRangeG5.", "From RX.Spec Require CstFullS4 CstFullS6.", "From RX.Proofs Require CstRangeG6Defs CstRangeG6."],
    groups=[("BorrowLocal.v", ["mk_slice_valid", "fast_path_text", "fast_path_attr", "fast_path_cdata"]),
            ("BorrowTokenizer.v", ["tokenizer_tokens_ok", "tokenizer_content_tokens_ok"], "Local Notation token := Tokenizer.token."),
            ("BorrowParse.v", ["token_preserves_borrows", "parse_borrows_ok", "static_only_xml"]),
@@ -179,11 +194,14 @@ TABLE = {
            ("CstRangeTMain.v", ["parse_render_storage_t"], "Module T := CstText."),
            ("CstRangeEMain.v", ["parse_render_storage_e"], "Module E := CstEnt."),
            ("CstRangeFS2.v", ["parse_render_storage_f2"], "Import RX.Spec.CstFull. Import RX.Proofs.CstRangeFDefs. Import RX.Proofs.CstRangeFS2."),
-           ("CstRangeG5.v", ["parse_render_storage_f5"], "Import RX.Spec.CstFull. Import RX.Spec.CstFullS5. Import RX.Proofs.CstRangeFDefs. Import RX.Proofs.CstRangeFS2. Import RX.Proofs.CstRangeG5Defs. Import RX.Proofs.CstRangeG5.")]),
+           ("CstRangeG5.v", ["parse_render_storage_f5"], "Import RX.Spec.CstFull. Import RX.Spec.CstFullS5. Import RX.Proofs.CstRangeFDefs. Import RX.Proofs.CstRangeFS2. Import RX.Proofs.CstRangeG5Defs. Import RX.Proofs.CstRangeG5."),
+           ("CstRangeG6.v", ["parse_render_storage_f6"], "Import RX.Spec.CstFull. Import RX.Spec.CstFullS4. Import RX.Spec.CstFullS6. Import RX.Proofs.CstRangeFDefs. Import RX.Proofs.CstRangeFS2. Import RX.Proofs.CstRangeG6Defs. Import RX.Proofs.CstRangeG6.")]),
  "C19": dict(
-   intro="C19 -- the `positions` feature only adds API surface: the fields it removes (NodeData.range,\n   AttributeData.range / qname_len / eq_len) are write-only for the parser.  A builder that strips them after\n   every token produces exactly the stripped document and the same errors, for the tokenizer run and for the\n   whole parse (parse_np_correct).  Determinism itself holds of the model by construction (it is a function)\n   and is decided for the code by the feature-set / repetition correspondence.",
-   imports=["From RX.Proofs Require Import OptionsParam PositionsNonInterf."],
-   groups=[("PositionsNonInterf.v", ["token_strip", "parse_document_strip", "parse_strip_invariant", "parse_strip_errors", "parse_np_correct"])]),
+   intro="C19 -- the `positions` feature only adds API surface: the fields it removes (NodeData.range,\n   AttributeData.range / qname_len / eq_len) are write-only for the parser.  A builder that strips them after\n   every token produces exactly the stripped document and the same errors, for the tokenizer run and for the\n   whole parse (parse_np_correct).  Determinism itself holds of the model by construction (it is a function)\n   and is decided for the code by the feature-set / repetition correspondence.  The premise -- which fields and\n   statements the features gate -- is regenerated from every cfg(feature = ..) attribute of the source (GeneratedFeatures.v)\n   and compared with what strip_* erases (Proofs/FeatureGates.v).",
+   imports=["From RX.Proofs Require Import OptionsParam PositionsNonInterf.", "From RX Require GeneratedFeatures.", "From RX.Proofs Require FeatureGates."],
+   groups=[("PositionsNonInterf.v", ["token_strip", "parse_document_strip", "parse_strip_invariant", "parse_strip_errors", "parse_np_correct"]),
+           ("FeatureGates.v", ["gated_fields_are_the_stripped_ones", "strip_node_only_range", "strip_attr_only_positions", "gated_statements", "std_gates"],
+            "Import RX.GeneratedFeatures. Import RX.Proofs.FeatureGates. Local Open Scope string_scope.")]),
  "C17": dict(
    intro="C17 -- node identity, equality, ordering: a node is the key (document address, id).",
    imports=["From RX.Proofs Require Import OrderProofs."],
